@@ -42,10 +42,22 @@ static struct { struct sexp_free_list_t sentinel; char pad[16]; struct kit_slot 
 #define IDX_P 3
 #endif
 #define heap_mem ((sexp_uint_t *)&heap_img)
-static int close_calls, close_fd;
+static int close_calls, close_fd, fclose_calls;
+static char port_buf[8];
+static long fake_file[4];           /* stands for the FILE object of a stream-backed port */
+#include <stdio.h>
+#include <unistd.h>
 KIT_C_BEGIN
 int close(int fd) { close_calls++; close_fd = fd; return 0; }      /* the resource release being counted */
+/* the final flush of an output port may fail or be partial: arbitrary results */
+ssize_t write(int fd, const void *buf, size_t n) { long r = nondet_sword(); __CPROVER_assume(r >= -1 && r <= (long)n); return r; }
+size_t fwrite(const void *p, size_t sz, size_t n, FILE *f) { long r = nondet_sword(); __CPROVER_assume(r >= 0 && r <= (long)n); return r; }
+int fflush(FILE *f) { return nondet_bool() ? -1 : 0; }
+int fclose(FILE *f) { fclose_calls++; return 0; }
 KIT_C_END
+#ifndef PORT_KIND
+#define PORT_KIND 0     /* 0 input port over a descriptor, 1 output port over a descriptor (pending bytes), 2 output port over a FILE stream */
+#endif
 #elif MODE >= 3
 /* concrete layout (four objects): a typed heap image, so that tags and stored object addresses stay
    symex constants while the real marker walks it */
@@ -212,13 +224,20 @@ void harness(void) {
      port's open/no-close flags and the share count (1 or 2) are free.  Real mark from R, real sexp_finalize,
      real sweep; close() is counted. */
   sexp R = (sexp)SLOT_ADDR(0), F = (sexp)SLOT_ADDR(IDX_F), P = (sexp)SLOT_ADDR(IDX_P), Q = (sexp)SLOT_ADDR(IDX_Q);
-  sexp_pointer_tag(F) = SEXP_FILENO; sexp_pointer_tag(P) = SEXP_IPORT;
+  sexp_pointer_tag(F) = SEXP_FILENO; sexp_pointer_tag(P) = PORT_KIND ? SEXP_OPORT : SEXP_IPORT;
   _Bool f_open = nondet_bool(), f_noclose = nondet_bool(), p_open = nondet_bool(), p_noclose = nondet_bool();
   sexp_sint_t count0 = nondet_bool() ? 2 : 1;
   sexp_fileno_fd(F) = 7; sexp_fileno_openp(F) = f_open; sexp_fileno_no_closep(F) = f_noclose; sexp_fileno_count(F) = count0;
   sexp_port_name(P) = R; sexp_port_cookie(P) = R; sexp_port_fd(P) = F;   /* live objects rather than #f: see the note on R below */ sexp_port_stream(P) = NULL; sexp_port_buf(P) = NULL;
   sexp_port_openp(P) = p_open; sexp_port_no_closep(P) = p_noclose; sexp_port_shutdownp(P) = 0; sexp_port_bidirp(P) = 0; sexp_port_binaryp(P) = 0;
   sexp_port_offset(P) = 3; sexp_port_size(P) = 9;
+#if PORT_KIND >= 1
+  sexp_port_buf(P) = port_buf; sexp_port_size(P) = 8;
+  { sexp_uint_t pending = nondet_uword(); __CPROVER_assume(pending <= 4); sexp_port_offset(P) = pending; }
+#endif
+#if PORT_KIND == 2
+  sexp_port_stream(P) = (FILE *) fake_file;
+#endif
   _Bool port_reachable = PORT_REACHABLE, fd_reachable = FD_REACHABLE || PORT_REACHABLE;
   /* "no reference" is a self reference of the root, not #f: the marker compares adjacent slots, and an
      address compared with an immediate constant does not fold in symex (R12) */
@@ -232,7 +251,8 @@ void harness(void) {
   if (close_calls) KIT_ASSERT(close_fd == 7, "only the descriptor of the finalized object is closed");
   if (port_reachable) {
     KIT_ASSERT(close_calls == 0, "nothing is closed while the owning port is reachable");
-    KIT_ASSERT(!!sexp_port_openp(P) == p_open && !!sexp_fileno_openp(F) == f_open && sexp_fileno_count(F) == count0 && sexp_port_size(P) == 9, "reachable port and descriptor are untouched");
+    KIT_ASSERT(!!sexp_port_openp(P) == p_open && !!sexp_fileno_openp(F) == f_open && sexp_fileno_count(F) == count0 && sexp_port_size(P) == (PORT_KIND ? 8 : 9), "reachable port and descriptor are untouched");
+    KIT_ASSERT(fclose_calls == 0, "the stream of a reachable port is not closed");
   } else {
     KIT_ASSERT(!sexp_port_openp(P), "an unreachable port is closed");
   }
@@ -242,6 +262,12 @@ void harness(void) {
   if (fd_reachable && !port_reachable && count0 == 2 && p_open && f_open && !p_noclose) {
     KIT_ASSERT(close_calls == 0 && sexp_fileno_count(F) == 1 && sexp_fileno_openp(F), "a descriptor shared with another port stays open when one of its ports is collected");
   }
+  if (!port_reachable && p_open && !p_noclose && f_open && !f_noclose && count0 == 1)
+    KIT_ASSERT(close_calls == 1 && !sexp_fileno_openp(F), "dropping the only port over an open descriptor releases it (whether or not the final flush succeeds)");
+#if PORT_KIND == 2
+  if (!port_reachable && p_open && !p_noclose) KIT_ASSERT(fclose_calls == 1, "the stream of a dropped open port is closed exactly once (whether or not the final flush succeeds)");
+  if (port_reachable || !p_open || p_noclose) KIT_ASSERT(fclose_calls == 0, "no stream is closed otherwise");
+#endif
   if (!f_open || f_noclose) KIT_ASSERT(close_calls == 0, "a descriptor that is already closed, or marked no-close, is never closed");
   size_t sum = 0;
   sexp_sweep(ctx, &sum);
@@ -255,6 +281,7 @@ void harness(void) {
   sexp_mark(ctx, R);
   sexp_finalize(ctx);
   KIT_ASSERT(close_calls == before, "a later collection does not release the same descriptor again");
+  KIT_ASSERT(fclose_calls <= 1, "nor the stream");
 #elif MODE == 5
   /* chain: R -> E2, E1, KEY1;  E1 = (KEY1 => KEY2),  E2 = (KEY2 => VAL2), with E2 placed BEFORE E1 in the heap so
      that the value pass needs a second round: KEY2 is alive only as E1's value, VAL2 only as E2's value */
